@@ -1408,10 +1408,11 @@ impl Ctx<'_> {
                 "concurrent durable writes of one key were logged in one order and applied in memory in another: after a crash at quiescence the store recovers a value readers had already seen overwritten",
                 input,
             );
-        } else if k.cls() == Cls::E {
+        } else if k.cls() == Cls::E && emb_ops_overlap(&o.hist.iter().filter(|r| r.op.key() == Some(k) && !matches!(r.op, Op::Get(_) | Op::Ex(_))).cloned().collect::<Vec<_>>()) {
+            // (cannot happen while the log mutex covers the whole durable write: kept narrow on purpose)
             self.violation(
                 "tensor_store/emb_history_not_linearizable",
-                "durable writers of one emb: key interleaved their index / vector / metadata sub-steps: the quiescent in-memory value is not the last logged one (recovered state differs)",
+                "writers of one emb: key interleaved their index / vector / metadata sub-steps: the quiescent in-memory value is not the last logged one (recovered state differs)",
                 input,
             );
         } else {
